@@ -12,3 +12,10 @@ done
 wait
 g++ --coverage $OUT/*.o -rdynamic -lz -llzma -ldl -pthread -o $OUT/harness
 echo built $OUT/harness
+mkdir -p $OUT/tools
+for t in $REPO/src/bin/*.cpp; do
+  n=$(basename $t .cpp | tr _ -)
+  ( cd $OUT/tools && g++ -std=gnu++14 -msse4 -I $REPO/src -pthread -O0 -g --coverage $t $REPO/src/*.cpp -lz -llzma -o $OUT/tools/$n ) &
+done
+wait
+echo built tools
